@@ -44,7 +44,9 @@ ReqAt(ch, i) == IF i = 0 THEN {} ELSE ReqAt(ch, i - 1) \cup ch[i].flags \cup Imp
 Req(ch) == ReqAt(ch, Len(ch))
 
 (* the root context owns a finaliser pool; a pushed context owns one iff it has a hard limit, else it shares its parent's *)
-Owns(ch, i) == i = 0 \/ ch[i].lim # "none"
+(* a context owns its finaliser pool iff it restricts resources or requires flags of its own (since fix 8767185; before it
+   only a hard limit did, and a finaliser set up in a flags-only context ran later, ungated, in an enclosing context) *)
+Owns(ch, i) == i = 0 \/ ch[i].lim # "none" \/ ch[i].flags # {}
 Owner(ch) == CHOOSE i \in 0..Len(ch) : Owns(ch, i) /\ \A j \in (i + 1)..Len(ch) : ~Owns(ch, j)
 
 VARIABLES fam,      \* "direct" | "plain" | "exit"
